@@ -26,6 +26,18 @@ pub struct C01;
 
 const PPC: Size = Size { height: 4, width: 2 };
 
+/// Size a terminal of `h`x`w` cells reports: `cells * PPC + r` pixels per axis with
+/// `r = rem % cells` (so `0 <= r < cells`: the cell is still `PPC` pixels, the window simply is
+/// not a whole number of cells big, as with any window manager that does not snap to the cell
+/// grid). `rem == (0, 0)` is the exact multiple older cases were generated with.
+fn term_size(h: usize, w: usize, rem: (u8, u8)) -> TerminalSize {
+    let r = |cells: usize, rem: u8| if cells == 0 { 0 } else { rem as usize % cells };
+    TerminalSize {
+        cells: Size::new(h, w),
+        pixels: Size::new(h * PPC.height + r(h, rem.0), w * PPC.width + r(w, rem.1)),
+    }
+}
+
 // ---- pools ------------------------------------------------------------------------------
 
 fn face_pool(i: u8) -> Face {
@@ -125,6 +137,10 @@ pub struct Case {
     /// when present the history is driven through `Terminal::run_render` instead (`ops` unused)
     #[serde(default)]
     pub render_loop: Option<RenderLoop>,
+    /// pixels the terminal reports beyond `cells * PPC`, per axis, modulo the number of cells
+    /// (see `term_size`); kept across `Recreate`
+    #[serde(default)]
+    pub px_rem: (u8, u8),
 }
 
 /// A session of the library's own render loop on a terminal whose output queue is scripted
@@ -409,13 +425,14 @@ fn expected_of(cells: &[Cell], h: usize, w: usize, tsize: TerminalSize) -> Expec
     for r in 0..h {
         for c in 0..w {
             let cell = &cells[r * w + c];
+            // what a cell covers: an image the cells its pixels need, a glyph the size in cells
+            // it was declared with (whatever picture the library hands to the terminal for it)
             let img = match cell.kind() {
-                CellKind::Image(img) => Some(img.clone()),
-                CellKind::Glyph(g) => Some(g.rasterize(cell.face(), tsize)),
+                CellKind::Image(img) => Some((img.clone(), img.size_cells(PPC))),
+                CellKind::Glyph(g) => Some((g.rasterize(cell.face(), tsize), g.size())),
                 CellKind::Char(_) => None,
             };
-            if let Some(img) = img {
-                let size = img.size_cells(PPC);
+            if let Some((img, size)) = img {
                 if size.height > 0 && size.width > 0 {
                     placements.push(Placement { key: img.hash(), row: r, col: c, height: size.height, width: size.width });
                 }
@@ -579,7 +596,13 @@ fn check_display(
             continue;
         }
         if m != e {
-            let class = classify_mismatch(screen, m, e);
+            // a picture that the surface does have at that very cell, but which reaches a cell
+            // the surface's cell does not cover: not a stale image, the picture handed to the
+            // terminal is bigger than the cells it stands for
+            let none = BTreeSet::new();
+            let wanted = if let Shown::Images(e) = e { e } else { &none };
+            let oversized = matches!(m, Shown::Images(m) if m.difference(wanted).any(|pk| exp.placements.iter().any(|p| (p.key, p.row, p.col) == *pk)));
+            let class = if oversized { "picture-exceeds-the-cells-of-its-cell" } else { classify_mismatch(screen, m, e) };
             let fail = Fail::new(
                 format!("display/{class}"),
                 format!(
@@ -595,7 +618,7 @@ fn check_display(
         }
     }
     // (2) differential: brand-new renderer, blank terminal, same surface
-    let mut term2 = RecTerm::new(Size::new(h, w), PPC, true);
+    let mut term2 = RecTerm::with_size(tsize, true);
     let mut fresh = TerminalRenderer::new(&mut term2, false)
         .map_err(|e| Fail::new("renderer/new-error", format!("{e:?}")))?;
     {
@@ -640,10 +663,10 @@ fn check_display(
 
 pub fn run_case(case: &Case) -> Outcome {
     if let Some(rl) = &case.render_loop {
-        return run_loop_case(case.height as usize, case.width as usize, rl);
+        return run_loop_case(case.height as usize, case.width as usize, case.px_rem, rl);
     }
     let (mut h, mut w) = (case.height as usize, case.width as usize);
-    let mut term = RecTerm::new(Size::new(h, w), PPC, true);
+    let mut term = RecTerm::with_size(term_size(h, w, case.px_rem), true);
     let mut screen = Screen::new(h, w);
     let mut renderer = TerminalRenderer::new(&mut term, false)
         .map_err(|e| Fail::new("renderer/new-error", format!("{e:?}")))?;
@@ -722,7 +745,7 @@ pub fn run_case(case: &Case) -> Outcome {
                         screen.cells[idx] = MCell { ch: NARROW[2 + (*ch as usize % 4)], face: face_pool(*face), half: Half::No };
                     }
                 }
-                term = RecTerm::new(Size::new(h, w), PPC, true);
+                term = RecTerm::with_size(term_size(h, w, case.px_rem), true);
                 renderer = TerminalRenderer::new(&mut term, true)
                     .map_err(|e| Fail::new("renderer/new-error", format!("{e:?}")))?;
                 last_delivered.clear();
@@ -764,6 +787,12 @@ pub fn run_case(case: &Case) -> Outcome {
                 }
                 if !exp.placements.is_empty() {
                     run.labels.insert("frame-with-image");
+                }
+                if term.size.pixels != Size::new(h * PPC.height, w * PPC.width) {
+                    run.labels.insert("term:pixel-size-not-a-multiple-of-cells");
+                    if snap.iter().any(|c| matches!(c.kind(), CellKind::Glyph(_))) {
+                        run.labels.insert("term:pixel-remainder+frame-with-glyph");
+                    }
                 }
                 if exp.dont_care.iter().any(|d| *d) {
                     run.labels.insert("wide-partly-under-image");
@@ -912,11 +941,10 @@ impl Terminal for LoopTerm {
     }
 }
 
-fn run_loop_case(h: usize, w: usize, rl: &RenderLoop) -> Outcome {
+fn run_loop_case(h: usize, w: usize, px_rem: (u8, u8), rl: &RenderLoop) -> Outcome {
     use surf_n_term::TerminalAction;
-    let cells = Size::new(h, w);
     let mut term = LoopTerm {
-        size: TerminalSize { cells, pixels: Size::new(h * PPC.height, w * PPC.width) },
+        size: term_size(h, w, px_rem),
         caps: TerminalCaps { depth: surf_n_term::encoder::ColorDepth::TrueColor, glyphs: true, kitty_keyboard: false },
         open: Vec::new(),
         queue: Default::default(),
@@ -1074,6 +1102,7 @@ fn run_loop_case(h: usize, w: usize, rl: &RenderLoop) -> Outcome {
         .label_if(term.resizes > 0, "loop:resize-events")
         .label_if(!skip.is_empty(), "loop:no-frame-invocations")
         .label_if(!rl.layers.is_empty(), "loop:persistent-layers")
+        .label_if(term.size.pixels != Size::new(h * PPC.height, w * PPC.width), "term:pixel-size-not-a-multiple-of-cells")
         .label_if(frames >= 2, "frames>=2");
     for l in labels {
         pass = pass.label(l);
@@ -1134,9 +1163,12 @@ impl Property for C01 {
                     .prop_map(|(height, width, scramble)| Op::Recreate { height, width, scramble }),
             ]
         };
-        let direct = (1..=maxh, 1..=maxw, proptest::collection::vec(op(), 1..maxops)).prop_map(|(height, width, mut ops)| {
+        // pixels beyond cells x 4x2 (taken modulo the number of cells): half of the terminals
+        // report an exact multiple, the others a remainder on one or both axes
+        let px_rem = || prop_oneof![3 => Just((0u8, 0u8)), 2 => (any::<u8>(), any::<u8>()), 1 => (Just(0u8), any::<u8>())];
+        let direct = (1..=maxh, 1..=maxw, proptest::collection::vec(op(), 1..maxops), px_rem()).prop_map(|(height, width, mut ops, px_rem)| {
             ops.push(Op::Frame);
-            Case { height, width, ops, render_loop: None }
+            Case { height, width, ops, render_loop: None, px_rem }
         });
         // the render loop drops frames when more than 32 are pending: sessions long enough to
         // get there (a stall of 0..60 polls in a session of 1..60 frames), painting little
@@ -1163,10 +1195,12 @@ impl Property for C01 {
             proptest::collection::vec(0u8..4, 0..4),
             prop_oneof![1 => Just(Vec::new()), 1 => proptest::collection::vec(0u8..40, 1..4)],
             prop_oneof![1 => Just(Vec::new()), 2 => proptest::collection::vec(layer, 1..3)],
+            px_rem(),
         )
-            .prop_map(|(height, width, frames, no_frame, stall, deliver, resize_polls, layers)| Case {
+            .prop_map(|(height, width, frames, no_frame, stall, deliver, resize_polls, layers, px_rem)| Case {
                 height,
                 width,
+                px_rem,
                 ops: Vec::new(),
                 render_loop: Some(RenderLoop { frames, no_frame, stall, deliver, resize_polls, layers }),
             });
@@ -1182,7 +1216,7 @@ impl Property for C01 {
     }
 
     fn rule(&self) -> String {
-        "terminal 1..7 x 1..11 cells (thorough up to 9x40), cell = 4x2 pixels; history of 1-12 ops (thorough 30): Paint (0-9 cells: narrow chars from {' ',a,b,c,d}, wide chars 世/🤩, 7 pool images reused by Arc (1x1/2x2/1x3 cells, plus four equal-sized windows at different offsets into one backing picture), 2 glyphs; 5 pool faces; positions absolute or right-neighbour / same cell / below the previous put, plus runs of equal coloured blanks), Repaint (previous frame's cells again), Frame (delivered + checked), NoFrame, Clear, Dropped (1-2 frames rendered but never delivered, then the mandatory clear()), Recreate (clear(), screen scrambled, possibly resized, new renderer with clear=true). One case in 12 instead drives the library's own render loop (Terminal::run_render) on a terminal whose output queue is scripted: 1-63 handler invocations (a third of the sessions at least 40) painting 0-3 cells each (some answering WaitNoFrame), in two thirds of the sessions on top of 1-2 persistent layers (1-2 cells, mostly pictures/glyphs, painted again at every invocation of an interval from..from+len, either whatever the lag or only while Terminal::frames_pending() is at most a limit: random 0-39, or 32, the number of pending frames above which the loop itself drops frames) so that an image stays on the screen unchanged over many frames and disappears at an arbitrary round, including the round that drops frames; the terminal accepting 0-3 queued frames per poll and nothing at all during a stall of 0-59 polls (a third of the sessions at least 33), so that the loop's frame dropping (more than 32 frames pending: frames_drop + clear()) takes place, and in half of these cases 1-3 polls reporting a Resize event with the unchanged size (the loop answers with clear() and a new renderer); every frame that reaches the screen is checked, and the frame of the last invocation must be among them. A stale image is attributed to the listed design limit (signature display/stale-image-after-dropped-frames) only if the ImageErase of that very placement (image, cell) was issued in a frame that was then dropped (Dropped op / chunks discarded by frames_drop) and the placement has not been drawn again since; a frame is reported under that signature only if it has no other mismatch. Any other stale image is a violation: display/stale-image-survives-forced-clear when it was drawn before a forced clear (clear(), frame drop + clear(), re-creation, Resize) issued since, display/stale-image otherwise. A second listed finding has a signature of its own (display/stale-image-resize-clear-discarded-by-drop): an image whose erase was issued by the clear() answering a Resize event and discarded by frames_drop in the same round of the render loop. After every delivered frame the reference screen's display must equal (1) the display the surface denotes and (2) the display a brand-new renderer produces for the same surface on a blank screen. non-trivial = >=2 delivered frames, the later differing from the earlier, and one of: wide char in both, image kept/moved/removed, blank run >=5, forced clear on a non-blank screen, dropped frames, re-creation; render-loop cases: a frame delivered after the loop dropped frames. Labels of the render-loop sessions: loop:persistent-layers, loop:image-erase-in-dropped-frame (the design limit's precondition), loop:image-erased-by-forced-clear-of-drop (an image on the screen that no dropped frame erased and that the first frame after the drop no longer has: only the loop's forced clear can remove it)".into()
+        "terminal 1..7 x 1..11 cells (thorough up to 9x40), cell = 4x2 pixels; half of the terminals report exactly cells x 4x2 pixels, the others cells x 4x2 + r pixels with 0 <= r < cells on each axis (a window that is not a whole number of cells big: pixels_per_cell() is still 4x2, but pixels/cells is not an integer), kept across Recreate and used for the from-scratch renderer too; history of 1-12 ops (thorough 30): Paint (0-9 cells: narrow chars from {' ',a,b,c,d}, wide chars 世/🤩, 7 pool images reused by Arc (1x1/2x2/1x3 cells, plus four equal-sized windows at different offsets into one backing picture), 2 glyphs; 5 pool faces; positions absolute or right-neighbour / same cell / below the previous put, plus runs of equal coloured blanks), Repaint (previous frame's cells again), Frame (delivered + checked), NoFrame, Clear, Dropped (1-2 frames rendered but never delivered, then the mandatory clear()), Recreate (clear(), screen scrambled, possibly resized, new renderer with clear=true). One case in 12 instead drives the library's own render loop (Terminal::run_render) on a terminal whose output queue is scripted: 1-63 handler invocations (a third of the sessions at least 40) painting 0-3 cells each (some answering WaitNoFrame), in two thirds of the sessions on top of 1-2 persistent layers (1-2 cells, mostly pictures/glyphs, painted again at every invocation of an interval from..from+len, either whatever the lag or only while Terminal::frames_pending() is at most a limit: random 0-39, or 32, the number of pending frames above which the loop itself drops frames) so that an image stays on the screen unchanged over many frames and disappears at an arbitrary round, including the round that drops frames; the terminal accepting 0-3 queued frames per poll and nothing at all during a stall of 0-59 polls (a third of the sessions at least 33), so that the loop's frame dropping (more than 32 frames pending: frames_drop + clear()) takes place, and in half of these cases 1-3 polls reporting a Resize event with the unchanged size (the loop answers with clear() and a new renderer); every frame that reaches the screen is checked, and the frame of the last invocation must be among them. A stale image is attributed to the listed design limit (signature display/stale-image-after-dropped-frames) only if the ImageErase of that very placement (image, cell) was issued in a frame that was then dropped (Dropped op / chunks discarded by frames_drop) and the placement has not been drawn again since; a frame is reported under that signature only if it has no other mismatch. Any other stale image is a violation: display/stale-image-survives-forced-clear when it was drawn before a forced clear (clear(), frame drop + clear(), re-creation, Resize) issued since, display/stale-image otherwise. A second listed finding has a signature of its own (display/stale-image-resize-clear-discarded-by-drop): an image whose erase was issued by the clear() answering a Resize event and discarded by frames_drop in the same round of the render loop. A picture that the surface has at that cell but that covers, on the screen, a cell outside the extent of its cell (glyph: declared size) is reported as display/picture-exceeds-the-cells-of-its-cell. After every delivered frame the reference screen's display must equal (1) the display the surface denotes and (2) the display a brand-new renderer produces for the same surface on a blank screen. non-trivial = >=2 delivered frames, the later differing from the earlier, and one of: wide char in both, image kept/moved/removed, blank run >=5, forced clear on a non-blank screen, dropped frames, re-creation; render-loop cases: a frame delivered after the loop dropped frames. Labels of the render-loop sessions: loop:persistent-layers, loop:image-erase-in-dropped-frame (the design limit's precondition), loop:image-erased-by-forced-clear-of-drop (an image on the screen that no dropped frame erased and that the first frame after the drop no longer has: only the loop's forced clear can remove it)".into()
     }
 
     fn assumptions(&self) -> Vec<String> {
@@ -1191,6 +1225,7 @@ impl Property for C01 {
             "z-order among overlapping images is terminal specific (kitty: by image id, sixel: by time): only the set of images covering a cell is compared".into(),
             "a wide character whose right half lies under an image is terminal specific: those two cells are exempt from oracle (1) and judged by the differential oracle only".into(),
             "image identity = pixel content hash + position; glyph rasterisation is trusted to be deterministic".into(),
+            "extent of a placement: on the reference screen a picture covers ceil(pixels / (4x2)) cells from its cell on (integer cell size = TerminalSize::pixels_per_cell(), left-over pixels are padding); in the display the surface denotes an image cell covers the same, a glyph cell covers exactly the size in cells it was declared with (Glyph::size()), whatever the pixel size of the terminal".into(),
             "zero-width characters and wide characters in the last column are outside the domain".into(),
             "render loop: the scripted terminal's frames_drop discards every queued chunk but the one in flight and the chunk being filled (as IOQueue::clear_but_last does); commands discarded that way never reach the reference screen; the statement's 'skipped frames' and 'forced clear' clauses are taken to cover the loop's frame dropping, except for the listed design limit (an ImageErase that was itself part of a dropped frame)".into(),
         ]
